@@ -85,7 +85,7 @@ def gen_spec(seed, index, tier):
                  abandon=rng.randint(0, 4), fmt=rng.choice(["yaml", "hdf5"]), what=rng.choice(["qpoints", "band", "mesh"]),
                  through_gamma=rng.random() < 0.3, call=rng.choice(["dm_at_q", "freqs", "freqs_vecs", "gv_at_q", "dm_run"]),
                  segments=rng.choice([1, 1, 2, 2, 3]), join=rng.choice(["gamma", "point", "none"]),
-                 tr=rng.random() < 0.75, gc=rng.random() < 0.75)
+                 tr=rng.random() < 0.75, gc=rng.random() < 0.75, qlayout=rng.choice(["list", "list", "array", "strided", "reversed", "fortran"]))
         tasks.append(t)
     order = [rng.randint(0, 99) for _ in range(60)]
     variant = "sim" if rng.random() < 0.55 else "serial"
@@ -95,7 +95,7 @@ def gen_spec(seed, index, tier):
 
         sched = gen_schedule(rng)
     return dict(seed=seed, world=w.spec, mesh=mesh, tasks=tasks, order=order, variant=variant, schedule=sched, compact=rng.random() < 0.5,
-                dense_svecs=rng.random() < 0.7)
+                dense_svecs=rng.random() < 0.7, factor=rng.choice([None, None, None, 521.47083, 3.0]))
 
 
 # ------------------------------------------------------------------ tasks (generators: one API call / iterator step per resume)
@@ -177,7 +177,22 @@ def _task_qlist(ctx, t):
 def task_qpoints(ctx, tid, t):
     ph = ctx.ph
     qs = _task_qlist(ctx, t)
-    ph.run_qpoints(qs, with_eigenvectors=t["eigvecs"], with_group_velocities=t["gv"], with_dynamical_matrices=t["dm"], nac_q_direction=t["direction"])
+    # the caller's q-points in the memory layouts a caller may have: list, own array, a column slice of a wider table,
+    # a reversed view, Fortran order - the phonons must be those of the values, whatever the strides
+    lay = t.get("qlayout", "list")
+    qarg = qs
+    if lay == "array":
+        qarg = np.array(qs, dtype="double")
+    elif lay == "strided":
+        big = np.zeros((len(qs), 5))
+        big[:, :3] = qs
+        big[:, 3:] = 0.37
+        qarg = big[:, :3]
+    elif lay == "reversed":
+        qarg = np.array(qs[::-1], dtype="double")[::-1]
+    elif lay == "fortran":
+        qarg = np.asfortranarray(np.array(qs, dtype="double"))
+    ph.run_qpoints(qarg, with_eigenvectors=t["eigvecs"], with_group_velocities=t["gv"], with_dynamical_matrices=t["dm"], nac_q_direction=t["direction"])
     d = ph.get_qpoints_dict()
     for i, q in enumerate(qs):
         ctx.report(tid, "qpoints", q, freq=d["frequencies"][i], D=(d["dynamical_matrices"][i] if t["dm"] else None),
@@ -570,7 +585,10 @@ def build_object(E, w, spec, variant):
     E.use(variant)
     if variant == "sim":
         E.sim.configure(spec["schedule"] or dict(team=1, policy="order"))
-    return w.build(compact=spec["compact"], store_dense_svecs=spec["dense_svecs"])
+    kw = {}
+    if spec.get("factor") is not None:
+        kw["factor"] = spec["factor"]  # a non-default frequency unit: every path must report in it
+    return w.build(compact=spec["compact"], store_dense_svecs=spec["dense_svecs"], **kw)
 
 
 def execute(spec):
